@@ -214,3 +214,39 @@ def h_illtyped(ni: int, seed: int, code: int, use_table: bool) -> bool:
             continue
         return rt.fail("C13:ill-typed-replication-accepted", lambda: f"r={r!r}")
     return True
+
+
+def h_draws(ni: int, seed: int, tab: List[int], listed: bool, r: int, k: int, twice: bool, us: List[float]) -> bool:
+    """
+    pre: 0 <= ni < 4
+    pre: 1 <= len(tab) <= TABMAX
+    pre: 0 <= r <= TABMAX
+    pre: 0 <= k <= 2
+    pre: len(us) == 6 and all(0.0 <= u < 1.0 for u in us)
+    post: _
+    """
+    # "...draws the same random numbers on every run": after an accepted update the stream continues exactly like a
+    # brand-new stream created with the installed seed - whatever it drew before, also when the installed seed
+    # equals the seed it already had (the same replication run twice, equal entries in a seed list)
+    name = NAMES[ni]
+    if rt.MODE == "symbolic":
+        rngstub.install(us)
+    st = MersenneTwister(seed)
+    for _ in range(k):
+        st.next_float()
+    upd = StreamSeedUpdater({name: tab}) if listed else SimpleStreamUpdater()
+    try:
+        upd.update_seed(name, st, r)
+        if twice:
+            st.next_float()
+            upd.update_seed(name, st, r)
+    except ValueError:
+        return True           # refusals are the subject of the other conditions
+    fresh = MersenneTwister(st.seed())
+    for n in range(2):
+        a, b = st.next_float(), fresh.next_float()
+        if a != b:
+            return rt.fail("C13:updated-stream-does-not-restart-at-the-installed-seed",
+                           lambda: f"stream {name!r} seed {seed} table {tab if listed else None} r={r} after {k} draws"
+                                   f"{' (updated twice)' if twice else ''}: draw {n} = {a}, a new stream with seed {st.seed()} gives {b}")
+    return True
